@@ -57,6 +57,8 @@ HARNESS_PRELUDE = r'''
 // Emitted by /verif/streamworld/cppnode.py.  Not yardl code.
 #include <cstdint>
 #include <deque>
+#include <locale>
+#include <iomanip>
 #include <iostream>
 #include <fstream>
 #include <sstream>
@@ -157,6 +159,24 @@ struct FaultPoint {
   void hit() { if (armed) { armed = false; throw std::runtime_error("harness: injected failure of the implementation call"); } }
 };
 
+struct GroupingPunct : std::numpunct<char> {
+  char do_thousands_sep() const override { return ','; }
+  std::string do_grouping() const override { return "\3"; }
+  char do_decimal_point() const override { return ','; }
+};
+
+static void apply_ostream_state(std::ostream& out, int state) {
+  switch (state) {
+    case 1: out << std::hex << std::showbase; break;
+    case 2: out << std::showpos; break;
+    case 3: out << std::oct; break;
+    case 4: out.imbue(std::locale(std::locale::classic(), new GroupingPunct)); break;
+    case 5: out << std::uppercase << std::scientific << std::boolalpha; out.precision(3); break;
+    case 6: out << std::left << std::internal; out.fill('*'); break;
+    default: break;
+  }
+}
+
 template <typename T> static T pop_front_or_default(std::deque<T>& q) {
   if (q.empty()) return T{};
   T v = std::move(q.front()); q.pop_front(); return v;
@@ -180,6 +200,8 @@ static json run_one(json const& run, std::vector<std::string> const& inputs) {
   std::istream in(&inbuf);
   SimOutBuf outbuf(run.value("fail_at", -1LL));
   std::ostream out(&outbuf);
+  // the state the caller's output stream is in when the writer gets it (a stream that was used for other output before)
+  apply_ostream_state(out, run.value("ostate", 0));
   std::string phase = "start";
   res["ok"] = true;
   try {
